@@ -199,6 +199,12 @@ func (e *kvElection) electionCtx() context.Context {
 }
 
 func (e *kvElection) Start(ctx context.Context) error {
+	// A claim left behind by a previous run whose context was cancelled a
+	// moment ago is given up before the new run begins.
+	if prev := e.electionCtx(); prev != nil && prev.Err() != nil {
+		e.endCancelledRun(prev)
+	}
+
 	e.mu.Lock()
 	defer e.mu.Unlock()
 
@@ -207,6 +213,18 @@ func (e *kvElection) Start(ctx context.Context) error {
 	}
 
 	e.ctx, e.cancel = context.WithCancel(ctx)
+
+	// "If the context is cancelled, the election will stop gracefully": the
+	// loops end with the context, but a leader's claim has to be given up as
+	// well, or it would go on reporting leadership with nobody refreshing its
+	// record. (Stop and StopWithContext do that themselves.)
+	run := e.ctx
+	go func() {
+		<-run.Done()
+		if ctx.Err() != nil {
+			e.endCancelledRun(run)
+		}
+	}()
 
 	// A new run begins. A watch loop of the previous run (ended by Stop or by
 	// cancelling that run's context) is bound to the old, cancelled context and
@@ -637,6 +655,32 @@ func (e *kvElection) becomeFollower() bool {
 	}
 
 	return wasLeader
+}
+
+// endCancelledRun ends the leadership term of a run whose context was
+// cancelled by the caller: the claim is cleared, the term's context closed and
+// OnDemote invoked, as for any other demotion. Nothing happens if the instance
+// does not lead, or if Stop or a new Start has taken over meanwhile.
+func (e *kvElection) endCancelledRun(run context.Context) {
+	e.mu.Lock()
+	if e.ctx != run || !e.isLeader.Load() {
+		e.mu.Unlock()
+		return
+	}
+	e.isLeader.Store(false)
+	e.state.Store(StateFollower)
+	e.lastTransition.Store(time.Now())
+	e.recordLeaderDuration()
+	e.leaderStartTime.Store(time.Time{})
+	if e.termCancel != nil {
+		e.termCancel()
+		e.termCancel = nil
+	}
+	e.recordTransition(StateLeader, StateFollower)
+	e.updateIsLeaderMetric()
+	e.mu.Unlock()
+
+	e.notifyDemoted("context_cancelled")
 }
 
 // notifyDemoted runs the OnDemote callback after becomeFollower reported that
